@@ -4,11 +4,13 @@
   Output: one line per run: `ok <id> steps=<n>` or `FAIL <id> line=<n> <message>`.
 -/
 import MoThreads.Driver.M1
+import MoThreads.Driver.M3
 open MoThreads.Driver
 
 inductive Model
   | none
   | m1 (m : M1.Sim)
+  | m3 (m : M3.Sim)
 
 structure DState where
   runId : String := ""
@@ -29,6 +31,7 @@ def finish (d : DState) : IO Unit := do
   if d.active && !d.failed then
     match d.model with
     | .m1 m => IO.println s!"ok {d.runId} steps={m.steps}"
+    | .m3 m => IO.println s!"ok {d.runId} steps={m.steps}"
     | .none => IO.println s!"ok {d.runId} steps=0"
 
 def startRun (ws : List String) : Except String Model :=
@@ -37,6 +40,7 @@ def startRun (ws : List String) : Except String Model :=
     let never := kv rest "never" == "1"
     let rs := (kv rest "raises").splitOn "," |>.filterMap String.toNat?
     .ok (.m1 (M1.start never rs))
+  | _ :: _ :: "m3" :: _ => .ok (.m3 M3.start)
   | _ => .error "unknown model"
 
 partial def loop (h : IO.FS.Stream) (d : DState) : IO Unit := do
@@ -61,6 +65,12 @@ partial def loop (h : IO.FS.Stream) (d : DState) : IO Unit := do
       | .m1 m =>
         match M1.feed m ws with
         | .ok m' => loop h { d with model := .m1 m' }
+        | .error e =>
+          IO.println s!"FAIL {d.runId} line={d.lineNo} {e}"
+          loop h { d with failed := true }
+      | .m3 m =>
+        match M3.feed m ws with
+        | .ok m' => loop h { d with model := .m3 m' }
         | .error e =>
           IO.println s!"FAIL {d.runId} line={d.lineNo} {e}"
           loop h { d with failed := true }
